@@ -217,6 +217,7 @@ BREAKING = [
     ('c15-class-ctx-no-line', ['C15'], [(A, 'def log_constant(pass_name, item, value):', 'class LineErrors:\n    """re-raise the given low-level errors of the enclosed block as AssemblerErrors of a line"""\n\n    def __init__(self, line, *types):\n        self.line = line\n        self.types = types\n\n    def __enter__(self):\n        return self\n\n    def __exit__(self, exc_type, exc, tb):\n        if exc_type is not None and issubclass(exc_type, self.types):\n            raise AssemblerError(str(exc), None) from exc\n        return False\n\n\ndef log_constant(pass_name, item, value):'), (A, '        try:\n            # atomic insts expect aq and rl as kwargs\n            if isinstance(item, ATypeInstruction) or isinstance(item, ALTypeInstruction):\n                *args, aq, rl = item.args()\n                code = encode_func(*args, aq=aq, rl=rl)\n            else:\n                args = item.args()\n                code = encode_func(*args)\n        except ValueError as e:\n            raise AssemblerError(str(e), item.line)\n', '        with LineErrors(item.line, ValueError):\n            # atomic insts expect aq and rl as kwargs\n            if isinstance(item, (ATypeInstruction, ALTypeInstruction)):\n                *args, aq, rl = item.args()\n                code = encode_func(*args, aq=aq, rl=rl)\n            else:\n                code = encode_func(*item.args())\n')]),
     ('c15-decorator-wrong-type', ['C15'], [(A, 'def resolve_instructions(items):', 'def converts_value_errors(fn):\n    def wrapper(item):\n        try:\n            return fn(item)\n        except KeyError as e:\n            raise AssemblerError(str(e), item.line)\n    return wrapper\n\n\n@converts_value_errors\ndef encode_item(item):\n    encode_func = INSTRUCTIONS[item.name]\n    if isinstance(item, (ATypeInstruction, ALTypeInstruction)):\n        *args, aq, rl = item.args()\n        return encode_func(*args, aq=aq, rl=rl)\n    return encode_func(*item.args())\n\n\ndef resolve_instructions(items):'), (A, '        encode_func = INSTRUCTIONS[item.name]\n        try:\n            # atomic insts expect aq and rl as kwargs\n            if isinstance(item, ATypeInstruction) or isinstance(item, ALTypeInstruction):\n                *args, aq, rl = item.args()\n                code = encode_func(*args, aq=aq, rl=rl)\n            else:\n                args = item.args()\n                code = encode_func(*args)\n        except ValueError as e:\n            raise AssemblerError(str(e), item.line)\n', '        code = encode_item(item)\n')]),
     ('c15-registry-misses-pass', ['C15'], [(A, 'def resolve_strings(items):', 'LATE_PASSES = []\n\n\ndef late_pass(fn):\n    LATE_PASSES.append(fn)\n    return fn\n\n\n@late_pass\ndef resolve_strings(items):'), (A, 'def resolve_sequences(items):', '@late_pass\ndef resolve_sequences(items):'), (A, 'def transform_shorthand_packs(items):', '@late_pass\ndef transform_shorthand_packs(items):'), (A, 'def resolve_include_bytes(items):', '@late_pass\ndef resolve_include_bytes(items):'), (A, '    items = resolve_strings(items)\n    items = resolve_sequences(items)\n    items = transform_shorthand_packs(items)\n    items = resolve_packs(items)\n    items = resolve_include_bytes(items)\n', '    for late in LATE_PASSES:\n        items = late(items)\n')]),
+    ('c15-local-rule-class-no-try', ['C15'], [(A, '    position = 0\n    new_items = []\n    for item in items:\n        # skip non-instructions and pseudo-instructions\n', '    class Rule:\n        def __init__(self, form, checks):\n            self.form = form\n            self.checks = checks\n\n        def matches(self, item, position, env):\n            return all(check(item, position, env) for check in self.checks)\n\n    rules = [Rule(form, checks) for form, checks in criteria.items()]\n\n    position = 0\n    new_items = []\n    for item in items:\n        # skip non-instructions and pseudo-instructions\n', 0), (A, '        try:\n            for name, preds in criteria.items():\n                if all(pred(item, position, env) for pred in preds):\n                    compressed = name\n                    break\n        except ValueError as e:\n            raise AssemblerError(str(e), item.line)\n', '        for rule in rules:\n            if rule.matches(item, position, env):\n                compressed = rule.form\n                break\n')]),
     ('c15-while-index-zero-based', ['C15'], [(A, '    for i, raw_line in enumerate(source.splitlines(), start=1):\n', '    rows = source.splitlines()\n    i = -1\n    while i + 1 < len(rows):\n        i += 1\n        raw_line = rows[i]\n')]),
     ('c15-to-bytes-overflow', ['C15'], [(A, '                value = struct.pack(fmt, value)\n', "                value = value.to_bytes(struct.calcsize(fmt), 'little', signed=value < 0)\n")]),
     ('c15-bytearray-append-user-int', ['C15'], [(A, '            try:\n                value = struct.pack(fmt, value)\n            except struct.error as e:\n                raise AssemblerError(\'value {} does not fit "{}": {}\'.format(value, item.name, e), item.line)\n            data.extend(value)', '            if item.name == \'bytes\':\n                data.append(value)\n                continue\n            try:\n                value = struct.pack(fmt, value)\n            except struct.error as e:\n                raise AssemblerError(\'value {} does not fit "{}": {}\'.format(value, item.name, e), item.line)\n            data.extend(value)')]),
@@ -384,6 +385,11 @@ PRESERVING = [
     ('p15-pass-registry', ['C15'], [(A, 'def resolve_strings(items):', 'LATE_PASSES = []\n\n\ndef late_pass(fn):\n    LATE_PASSES.append(fn)\n    return fn\n\n\n@late_pass\ndef resolve_strings(items):'), (A, 'def resolve_sequences(items):', '@late_pass\ndef resolve_sequences(items):'), (A, 'def transform_shorthand_packs(items):', '@late_pass\ndef transform_shorthand_packs(items):'), (A, 'def resolve_packs(items):', '@late_pass\ndef resolve_packs(items):'), (A, 'def resolve_include_bytes(items):', '@late_pass\ndef resolve_include_bytes(items):'), (A, '    items = resolve_strings(items)\n    items = resolve_sequences(items)\n    items = transform_shorthand_packs(items)\n    items = resolve_packs(items)\n    items = resolve_include_bytes(items)\n', '    for late in LATE_PASSES:\n        items = late(items)\n')]),
     ('p15-line-dataclass', ['C15'], [(A, 'class Line:\n\n    def __init__(self, file, number, contents):\n        self.file = file\n        self.number = number\n        self.contents = contents\n        # resolved path of the file named by an include_bytes line (set by the reader)\n        self.include_path = None\n', 'import dataclasses\nimport typing\n\n\n@dataclasses.dataclass\nclass Line:\n    file: str\n    number: int\n    contents: str\n    # resolved path of the file named by an include_bytes line (set by the reader)\n    include_path: typing.Optional[str] = None\n')]),
     ('p15-linetokens-namedtuple', ['C15'], [(A, 'class LineTokens:\n\n    def __init__(self, line, tokens):\n        self.line = line\n        self.tokens = tokens\n', 'import typing\n\n\nclass LineTokens(typing.NamedTuple):\n    line: Line\n    tokens: list\n'), (A, '    line = line_tokens.line\n    tokens = line_tokens.tokens\n', '    line, tokens = line_tokens\n')]),
+    ('p15-lexer-findall', ['C15'], [(A, "    tokens = re.split(r'[\\s,]+', contents)\n\n    # remove empty tokens\n    while '' in tokens:\n        tokens.remove('')\n", "    tokens = re.findall(r'[^\\s,]+', contents)\n")]),
+    ('p15-local-rule-class', ['C15'], [(A, '    position = 0\n    new_items = []\n    for item in items:\n        # skip non-instructions and pseudo-instructions\n', '    class Rule:\n        def __init__(self, form, checks):\n            self.form = form\n            self.checks = checks\n\n        def matches(self, item, position, env):\n            return all(check(item, position, env) for check in self.checks)\n\n    rules = [Rule(form, checks) for form, checks in criteria.items()]\n\n    position = 0\n    new_items = []\n    for item in items:\n        # skip non-instructions and pseudo-instructions\n', 0), (A, '        try:\n            for name, preds in criteria.items():\n                if all(pred(item, position, env) for pred in preds):\n                    compressed = name\n                    break\n        except ValueError as e:\n            raise AssemblerError(str(e), item.line)\n', '        try:\n            for rule in rules:\n                if rule.matches(item, position, env):\n                    compressed = rule.form\n                    break\n        except ValueError as e:\n            raise AssemblerError(str(e), item.line)\n')]),
+    ('p15-map-stages', ['C15'], [(A, '    tokens = [lex_tokens(l) for l in lines]\n    tokens = [t for t in tokens if len(t) > 0]\n    items = [parse_item(t) for t in tokens]\n', '    tokens = [t for t in map(lex_tokens, lines) if len(t) > 0]\n    items = list(map(parse_item, tokens))\n')]),
+    ('p15-staticmethod-attribute', ['C15'], [(A, '    def eval(self, position, env, line):\n        value = self.expr.eval(position, env, line)\n        return relocate_hi(value)\n', '    relocate = staticmethod(relocate_hi)\n\n    def eval(self, position, env, line):\n        value = self.expr.eval(position, env, line)\n        return self.relocate(value)\n')]),
+    ('p15-items-view-union', ['C15'], [(A, '        env = ChainMap(constants, labels)\n        imm = eval_immediate(item, position, env)', '        env = dict(labels.items() | constants.items())\n        imm = eval_immediate(item, position, env)')]),
     ('p15-size-percent-format', ['C15'], [(A, "            line.contents = '{} {}'.format(raw_line, size)", "            line.contents = '%s %d' % (raw_line, size)")]),
     ('p15-while-index', ['C15'], [(A, '    for i, raw_line in enumerate(source.splitlines(), start=1):\n', '    rows = source.splitlines()\n    i = 0\n    while i < len(rows):\n        raw_line = rows[i]\n        i += 1\n')]),
     ('p15-range-index', ['C15'], [(A, '    for i, raw_line in enumerate(source.splitlines(), start=1):\n', '    rows = source.splitlines()\n    for pos in range(len(rows)):\n        raw_line = rows[pos]\n        i = pos + 1\n')]),
@@ -442,6 +448,7 @@ PRESERVING = [
 # edits that move the code outside what the analysis can decide: the check must end with ANALYSIS-ERROR (exit 2),
 # neither pass nor claim a violation
 UNDECIDED = [
+    ('c15-lexer-findall-groups', ['C15'], [(A, "    tokens = re.split(r'[\\s,]+', contents)\n\n    # remove empty tokens\n    while '' in tokens:\n        tokens.remove('')\n", "    tokens = [m[0] for m in re.findall(r'(([^\\s,])+)', contents)]\n")]),
     ('c15-size-in-the-middle', ['C15'], [(A, "            line.contents = '{} {}'.format(raw_line, size)", "            line.contents = '{} {} bytes'.format(raw_line, size)")]),
     ('c15-size-token-via-field', ['C15'], [(A, '        _, path, size = tokens\n        size = int(size, base=0)\n', '        operands = {}\n        for position, word in enumerate(tokens):\n            operands[position] = word\n        size = int(operands[2], base=0)\n')]),
     ('c09-align-mod', ['C09'], [(A, "padding = self.alignment - (position % self.alignment)", "padding = self.alignment - (position % (self.alignment + 1))")]),
